@@ -131,7 +131,11 @@ func (task *genericTask) NextAction(ctx context.Context, flow Flow) chan IAction
 		response:    response,
 	}
 
-	task.mch <- msg
+	// the task's goroutine stops reading its inbox when the context is done
+	select {
+	case task.mch <- msg:
+	case <-ctx.Done():
+	}
 	return response
 }
 
